@@ -42,6 +42,18 @@ class DC:
 class NT(NamedTuple):
     x: int
     y: int
+def helperd(x, lo=2, hi=100): return (x, lo, hi)
+from dataclasses import field
+@dataclass
+class DCK:
+    x: int
+    k: int = field(default=9, kw_only=True)
+    y: int = 7
+@dataclass
+class DCI:
+    x: int
+    src: int = field(default=5, init=False)
+    y: int = 7
 '''
 # curated bodies per item kind (beyond the enumerated grammar): sugar, captures, helpers, typed methods
 EXTRA = {
@@ -80,6 +92,13 @@ EXTRA = {
         ("X", "e.Jets().Select(lambda j: (j.Trs().Select(lambda j: j.ptS()), j.ptS()))"),
         # a keyword argument of a method called on First(...)
         ("I", "e.jets.First().ptS(k=3)"), ("I", "e.Jets().First().ptS(k=3)"), ("I", "e.jets.Where(lambda j: j.pt > 1).First().ptS(k=3) + 1"),
+        # a helper with two defaults, the later one given by keyword; chained filters with a top-level or; dataclasses whose
+        # constructor parameters are not their fields in declaration order
+        ("X", "helperd(e.a, hi=e.b)"), ("X", "helperd(hi=e.b, x=e.a)"), ("X", "helperd(e.a, 3)"),
+        ("SI", "e.jets.Where(lambda j: j.pt > 1 or j.eta > 1).Where(lambda j: j.pt > 0).Select(lambda j: j.pt)"),
+        ("SI", "e.jets.Where(lambda j: j.pt > 0).Where(lambda j: j.pt > 1 or j.eta > 1).Select(lambda j: j.pt)"),
+        ("I", "e.jets.Where(lambda j: j.pt > 2 or j.eta > 0).Select(lambda j: j.pt).Where(lambda p: p > 0).Count()"),
+        ("I", "DCK(e.a, e.b).y"), ("I", "DCI(e.a, e.b).y + 1"), ("X", "(DCK(e.a, e.b, k=1).k, DCK(e.b, e.a, k=e.a).y)"), ("I", "DCK(e.a, e.b).y + DCI(e.b, e.a).y"),
         ("I", "(lambda: e.a)() + e.b"), ("X", "(lambda x, y: (y, x))(e.a, e.b)"), ("X", "(lambda x, y: (y, x))(y=e.a, x=e.b)"),
     ],
     "I": [("I", "e + 1"), ("B", "e > 1"), ("X", "(e, e)"), ("I", "helper(e)"), ("I", "e + V"), ("I", "-e"),
@@ -93,7 +112,7 @@ EXTRA = {
     "J": [("I", "e.pt"), ("I", "e.ptS()"), ("I", "e.ptS(k=1)"), ("B", "e.pt > 1"), ("ST", "e.tr"), ("ST", "e.Trs()"),
           ("X", "(e.pt, e.eta)"), ("I", "e.tr.Count()")],
     "X": [("I", "e[0]"), ("X", "(e[1], e[0])")],
-    "D": [("I", "e.x"), ("I", "e['x']")],
+    "D": [("I", "e.x"), ("I", "e['x']"), ("I", "e.y")],
     "B": [("B", "not e")],
     "ST": [("I", "e.Count()"), ("SI", "e.Select(lambda t: t.q)")],
     "SSI": [("SI", "e.SelectMany(lambda s: s)" if False else "e.Select(lambda s: s.Count())")],
@@ -156,7 +175,7 @@ class C01(Check):
         def cases(K=K, Q=Q):
             out = []
             for st in chains(K, menu_cut=None if not Q else 14):
-                cap = any(x in b for _, b in st for x in ("V", "W", "helper", "DC(", "NT("))
+                cap = any(x in b for _, b in st for x in ("V", "W", "helper", "DC(", "NT(", "DCK(", "DCI("))
                 for mode in ("call", "str", "ast"):
                     if cap and mode != "call":
                         continue
@@ -168,7 +187,7 @@ class C01(Check):
         def branch_cases():
             out = []
             def nocap(st):
-                return not any(x in b for _, b in st for x in ("V", "W", "helper", "DC(", "NT("))
+                return not any(x in b for _, b in st for x in ("V", "W", "helper", "DC(", "NT(", "DCK(", "DCI("))
             ones = [c for c in chains(1) if nocap(c)]
             for (p,) in ones[:20]:
                 kids = [c for c in chains(2) if len(c) == 2 and c[0] == p and nocap(c)][:6]
